@@ -118,6 +118,7 @@ func (e *Exec) assume(c *Term) {
 		return
 	}
 	e.pc = append(e.pc, c)
+	e.tc.Learn(c)
 	if e.model != nil {
 		if v, ok := e.evalUnderModel(c); !ok || !v {
 			e.model = nil
@@ -1123,7 +1124,7 @@ func (e *Exec) binop(op token.Token, xt types.Type, xv, yv Value, yt types.Type)
 		e.guard(tc.BNot(tc.Eq(y, tc.Const(y.W, 0))), "divide", "integer divide by zero")
 		if op == token.QUO {
 			if signed {
-				if nonneg(x) && nonneg(y) {
+				if e.tc.nonneg(x) && e.tc.nonneg(y) {
 					return tc.bin(OpUDiv, x, y)
 				}
 				return tc.bin(OpSDiv, x, y)
@@ -1131,7 +1132,7 @@ func (e *Exec) binop(op token.Token, xt types.Type, xv, yv Value, yt types.Type)
 			return tc.bin(OpUDiv, x, y)
 		}
 		if signed {
-			if nonneg(x) && nonneg(y) {
+			if e.tc.nonneg(x) && e.tc.nonneg(y) {
 				return tc.bin(OpURem, x, y)
 			}
 			return tc.bin(OpSRem, x, y)
@@ -1146,7 +1147,7 @@ func (e *Exec) binop(op token.Token, xt types.Type, xv, yv Value, yt types.Type)
 	case token.AND_NOT:
 		return tc.And(x, tc.Not(y))
 	case token.SHL, token.SHR:
-		if isSigned(yt) && !nonneg(y) {
+		if isSigned(yt) && !e.tc.nonneg(y) {
 			e.guard(tc.Sle(tc.Const(y.W, 0), y), "shift", "negative shift amount")
 		}
 		w := x.W
